@@ -184,3 +184,105 @@ Proof.
       try (unfold U32; vm_compute; reflexivity); try discriminate; try (intros [? ?]; discriminate).
   - repeat constructor; cbn; unfold U32; lia.
 Qed.
+
+(* ---------------------------------------------------------------- COMPRESSED files
+   Model/BigBedWriteZ.v is the bigBed writer model with the block compressor as a parameter [cmp] (every data and
+   zoom section goes through it when options.compress is set; uncompress_buf_size, write_zooms' skipping rules and the
+   two-pass level selection as the code computes them, i.e. on COMPRESSED sizes).  The file-level round trip holds for
+   EVERY compressor and every decompressor with  infl (cmp b) = b  (asked only when options.compress is set): that is
+   the only hypothesis on the pair.  [ubuf_fits] is a field width: when blocks are compressed, every block is shorter
+   than 2^32 bytes BEFORE compression (uncompress_buf_size is a u32 header field; data blocks hold at most
+   items_per_slot entries but a rest-of-line has no length limit, zoom blocks are 32 * items_per_slot bytes).
+   With options.compress = false the model is Model/BigBedWrite.v and these are the statements above. *)
+From BT Require Import Model.BigWigWriteZ Model.BigBedWriteZ Proofs.BedFileZ Proofs.BedFileZThms.
+From BT Require Spec.Inflate Proofs.InflateStored.
+
+Theorem C02_model_uncompressed : forall cmp fp o sizes autosql input, o_compress o = false ->
+  bb_write_z cmp fp o sizes autosql input = bb_write fp o sizes autosql input
+  /\ bb_write_multipass_z cmp fp o sizes autosql input = bb_write_multipass fp o sizes autosql input.
+Proof. exact bb_write_z_uncompressed. Qed.
+Print Assumptions C02_model_uncompressed.
+
+(* both writers (two_pass = false: BigBedWrite::write, true: write_multipass), every floating-point mode, every
+   option combination including compression: the reader opens the file, sees uncompress_buf_size = 0 iff the blocks
+   are raw, every chromosome's full-span read returns its entries in input order; item count, autoSql verbatim,
+   chromosome table *)
+Theorem C02_written_file_roundtrip_compressed : forall cmp two_pass fp o sizes autosql input f,
+  bb_write_either_z cmp two_pass fp o sizes autosql input = Ok f -> file_hyps o sizes input f -> ubuf_fits o input ->
+  exists i, read_info f = Ok i
+    /\ (h_ubuf (i_hdr i) = 0 <-> o_compress o = false) /\ h_ubuf (i_hdr i) < U32
+    /\ (forall infl, (o_compress o = true -> forall b, infl (cmp b) = b) -> forall c es, In (c, es) (bruns input) ->
+          exists len, lookup c sizes = Some len /\ bb_interval infl f i c 0 len = Ok es)
+    /\ (Nlen input < U64 -> bb_item_count f i = Ok (Nlen input))
+    /\ bb_autosql f i = Ok (Some (match autosql with Some s => s | None => AUTOSQL_BED3 end))
+    /\ map (fun c => (ci_name c, ci_id c)) (i_chroms i) = combine (map fst (bruns input)) (seqN 0 (length (bruns input)))
+    /\ Forall (fun c => lookup (ci_name c) sizes = Some (ci_len c)) (i_chroms i).
+Proof. exact written_file_roundtrip_compressed. Qed.
+Print Assumptions C02_written_file_roundtrip_compressed.
+
+(* the uncompress_buf_size the READER sees is at least the uncompressed length of every data block of the file
+   (the blocks are the sections of the runs; the chromosome id does not change a record's length) *)
+Theorem C02_written_file_buf_size_compressed : forall cmp two_pass fp o sizes autosql input f,
+  bb_write_either_z cmp two_pass fp o sizes autosql input = Ok f -> file_hyps o sizes input f -> ubuf_fits o input ->
+  exists i, read_info f = Ok i /\ (o_compress o = true ->
+    forall c es blk, In (c, es) (bruns input) -> In blk (sections_loop (o_ips o) [] es) ->
+      Nlen (flat_map (entry_bytes 0) blk) <= h_ubuf (i_hdr i)).
+Proof. exact written_file_buf_size_compressed. Qed.
+Print Assumptions C02_written_file_buf_size_compressed.
+
+(* [ubuf_fits] from field sizes alone: rest-of-line at most R bytes, items_per_slot * (13 + R) < 2^32 *)
+Theorem C02_ubuf_fits_of_bounds : forall o input R, 1 <= o_ips o -> o_ips o * (13 + R) < U32 -> 32 * o_ips o < U32 ->
+  Forall (fun it : bitem => Nlen (e_rest (snd it)) <= R) input -> ubuf_fits o input.
+Proof. intros o input R Hi Hb H32 Hall _. split; [exact H32|exact (blocks_fit_of_bounds o input R Hi Hb Hall)]. Qed.
+Print Assumptions C02_ubuf_fits_of_bounds.
+
+(* Non-vacuity: the example chromosome written COMPRESSED by both writers with a toy compressor ([toy_cmp]: two
+   marker bytes + the block reversed) and with the zlib "stored" encoder of Spec/Inflate.v, zoom levels 4 and 64:
+   every hypothesis is met, the file is longer than the uncompressed one (2 bytes per block), the header buffer size is 64, and the reader
+   with the matching decompressor returns the entries while the identity does not. *)
+Definition exz_opts : opts := {| o_compress := true; o_ips := 2; o_bs := 2; o_izoom := 160; o_maxzooms := 10; o_manual := Some [4; 64]; o_sort_all := true |}.
+Definition exz_input : list bitem := map (fun x => (k2_name, x)) ex_entries.
+Definition zlib_infl (b : list N) : list N := match Inflate.zlib_decode b with Some x => x | None => b end.
+Lemma zlib_rt : forall b, zlib_infl (Inflate.zlib_store b) = b.
+Proof. intros b. unfold zlib_infl. now rewrite InflateStored.zlib_decode_stored. Qed.
+Example C02_compressed_example_hyps :
+  (o_bs exz_opts <= 65535 /\ Nlen (bruns exz_input) < U16 /\ input_ok exz_input
+   /\ Forall (fun s : name * N => snd s < U32) [(k2_name, 40)])
+  /\ ubuf_fits exz_opts exz_input
+  /\ (forall b, toy_infl (toy_cmp b) = b) /\ (forall b, zlib_infl (Inflate.zlib_store b) = b)
+  /\ match bb_write_z toy_cmp ieee exz_opts [(k2_name, 40)] None exz_input,
+           bb_write_multipass_z toy_cmp ieee exz_opts [(k2_name, 40)] None exz_input,
+           bb_write_z Inflate.zlib_store ieee exz_opts [(k2_name, 40)] None exz_input with
+     | Ok f, Ok f2, Ok f3 => Nlen f <= U64 /\ Nlen f2 <= U64 /\ Nlen f3 <= U64
+     | _, _, _ => False
+     end.
+Proof.
+  split; [|split; [|split; [exact toy_rt|split; [exact zlib_rt|vm_compute; repeat split; discriminate]]]].
+  - split; [cbn; lia|]. split; [vm_compute; reflexivity|]. split.
+    + unfold input_ok, exz_input, ex_entries. repeat constructor; cbn [fst snd e_start e_end e_rest];
+        try (unfold U32; vm_compute; reflexivity); try discriminate; try (intros [? ?]; discriminate).
+    + repeat constructor; cbn; unfold U32; lia.
+  - apply (C02_ubuf_fits_of_bounds exz_opts exz_input 4); [cbn; lia|cbn; unfold U32; lia|cbn; unfold U32; lia|].
+    unfold exz_input, ex_entries. cbn [map]. repeat (constructor; [cbn; lia|]). constructor.
+Qed.
+Example C02_compressed_example_run :
+  match bb_write_z toy_cmp ieee exz_opts [(k2_name, 40)] None exz_input,
+        bb_write_multipass_z toy_cmp ieee exz_opts [(k2_name, 40)] None exz_input,
+        bb_write_z Inflate.zlib_store ieee exz_opts [(k2_name, 40)] None exz_input,
+        bb_write ieee {| o_compress := false; o_ips := 2; o_bs := 2; o_izoom := 160; o_maxzooms := 10; o_manual := Some [4; 64]; o_sort_all := true |}
+                 [(k2_name, 40)] None exz_input with
+  | Ok f, Ok f2, Ok f3, Ok g =>
+      Nlen g < Nlen f
+      /\ match read_info f, read_info f2, read_info f3 with
+         | Ok i, Ok i2, Ok i3 =>
+             h_ubuf (i_hdr i) = 64 /\ Nlen (i_zooms i) = 2 /\ h_ubuf (i_hdr i2) = 64 /\ h_ubuf (i_hdr i3) = 64
+             /\ bb_interval toy_infl f i k2_name 0 40 = Ok ex_entries
+             /\ bb_interval toy_infl f2 i2 k2_name 0 40 = Ok ex_entries
+             /\ bb_interval zlib_infl f3 i3 k2_name 0 40 = Ok ex_entries
+             /\ bb_interval toy_infl f i k2_name 12 18 = Ok (firstn 4 ex_entries)
+             /\ bb_interval idf f i k2_name 0 40 <> Ok ex_entries
+             /\ bb_item_count f i = Ok 5 /\ bb_autosql f i = Ok (Some AUTOSQL_BED3)
+         | _, _, _ => False end
+  | _, _, _, _ => False
+  end.
+Proof. vm_compute. repeat split; try reflexivity; discriminate. Qed.
